@@ -2,6 +2,7 @@ package main
 
 import (
 	"fmt"
+	"sort"
 	"strings"
 )
 
@@ -23,13 +24,19 @@ type qform struct {
 func parseQForm(t string) (qform, bool) {
 	var q qform
 	t = strings.TrimSpace(t)
-	if strings.HasPrefix(t, "(=> ") {
+	var guards []string
+	for strings.HasPrefix(t, "(=> ") {
 		parts := splitSexp(t[1 : len(t)-1])
 		if len(parts) != 3 {
 			return q, false
 		}
-		q.reach = parts[1]
+		guards = append(guards, parts[1])
 		t = parts[2]
+	}
+	if len(guards) == 1 {
+		q.reach = guards[0]
+	} else if len(guards) > 1 {
+		q.reach = "(and " + strings.Join(guards, " ") + ")"
 	}
 	if !strings.HasPrefix(t, "(forall ") {
 		return q, false
@@ -161,6 +168,108 @@ func skolemPositive(t string, sub map[string]string, sorts map[string]string, de
 	return t
 }
 
+// witnessExists replaces every existential in a positive position of an assumed formula by its body at a fresh witness
+// constant (an assumed "exists k. P" yields a k), and records the witnesses per bound-variable name.
+func witnessExists(t string, decls *[]string, wits map[string][][2]string, n *int) string {
+	t = strings.TrimSpace(t)
+	if !strings.HasPrefix(t, "(") || !strings.Contains(t, "(exists ") {
+		return t
+	}
+	parts := splitSexp(t[1 : len(t)-1])
+	if len(parts) == 0 {
+		return t
+	}
+	switch parts[0] {
+	case "=>":
+		if len(parts) != 3 {
+			return t
+		}
+		return "(=> " + parts[1] + " " + witnessExists(parts[2], decls, wits, n) + ")"
+	case "and", "or":
+		out := []string{parts[0]}
+		for _, p := range parts[1:] {
+			out = append(out, witnessExists(p, decls, wits, n))
+		}
+		return "(" + strings.Join(out, " ") + ")"
+	case "exists":
+		if len(parts) != 3 {
+			return t
+		}
+		local := map[string]string{}
+		for _, b := range splitSexp(parts[1][1 : len(parts[1])-1]) {
+			bs := splitSexp(b[1 : len(b)-1])
+			if len(bs) != 2 {
+				return t
+			}
+			*n++
+			w := fmt.Sprintf("wit!%s!%d", strings.Trim(bs[0], "|"), *n)
+			local[bs[0]] = w
+			wits[bs[0]] = append(wits[bs[0]], [2]string{w, bs[1]})
+			*decls = append(*decls, fmt.Sprintf("(declare-const %s %s)", w, bs[1]))
+		}
+		body := parts[2]
+		for name := range local {
+			if strings.Contains(body, "(("+name+" ") || strings.Contains(body, " ("+name+" ") {
+				return t
+			}
+		}
+		return witnessExists(substTokens(body, local), decls, wits, n)
+	}
+	return t
+}
+
+// offerWitnesses strengthens nothing: every existential in a positive position of the goal is replaced by the equivalent
+// "body at a known witness, or ... , or the existential itself", naming the candidates the assumptions provide.
+func offerWitnesses(t string, wits map[string][][2]string) string {
+	t = strings.TrimSpace(t)
+	if !strings.HasPrefix(t, "(") || !strings.Contains(t, "(exists ") {
+		return t
+	}
+	parts := splitSexp(t[1 : len(t)-1])
+	if len(parts) == 0 {
+		return t
+	}
+	switch parts[0] {
+	case "=>":
+		if len(parts) != 3 {
+			return t
+		}
+		return "(=> " + parts[1] + " " + offerWitnesses(parts[2], wits) + ")"
+	case "and", "or":
+		out := []string{parts[0]}
+		for _, p := range parts[1:] {
+			out = append(out, offerWitnesses(p, wits))
+		}
+		return "(" + strings.Join(out, " ") + ")"
+	case "exists":
+		if len(parts) != 3 {
+			return t
+		}
+		bs := splitSexp(parts[1][1 : len(parts[1])-1])
+		if len(bs) != 1 {
+			return t
+		}
+		b := splitSexp(bs[0][1 : len(bs[0])-1])
+		if len(b) != 2 {
+			return t
+		}
+		if strings.Contains(parts[2], "(("+b[0]+" ") || strings.Contains(parts[2], " ("+b[0]+" ") {
+			return t
+		}
+		alts := []string{}
+		for _, w := range wits[b[0]] {
+			if w[1] == b[1] && len(alts) < 8 {
+				alts = append(alts, substTokens(parts[2], map[string]string{b[0]: w[0]}))
+			}
+		}
+		if len(alts) == 0 {
+			return t
+		}
+		return "(or " + strings.Join(alts, " ") + " " + t + ")"
+	}
+	return t
+}
+
 // skolemGoal returns declarations, extra instance assertions and the negated goal for a goal with universally
 // quantified subformulas in positive positions; ok is false when there is none.
 func skolemGoal(goal string, earlier []string) (decls []string, insts []string, neg string, ok bool) {
@@ -174,7 +283,13 @@ func skolemGoal(goal string, earlier []string) (decls []string, insts []string, 
 	if len(decls) == 0 {
 		return nil, nil, "", false
 	}
-	neg = "(not " + pg + ")"
+	wits := map[string][][2]string{}
+	wn := 0
+	defer func() {
+		if ok {
+			neg = "(not " + offerWitnesses(pg, wits) + ")"
+		}
+	}()
 	for _, a := range earlier {
 		if !strings.Contains(a, "(forall ") {
 			continue
@@ -201,12 +316,53 @@ func skolemGoal(goal string, earlier []string) (decls []string, insts []string, 
 		if rebind {
 			continue
 		}
-		ib := substTokens(aq.body, sub)
+		ib := witnessExists(substTokens(aq.body, sub), &decls, wits, &wn)
 		if aq.reach != "" {
 			insts = append(insts, fmt.Sprintf("(assert (=> %s %s))", aq.reach, ib))
 		} else {
 			insts = append(insts, fmt.Sprintf("(assert %s)", ib))
 		}
 	}
-	return decls, insts, neg, true
+	// second round: facts whose pattern is the always-true marker mark(.) are invisible to the solver's own
+	// instantiation; give them every constant introduced so far (goal constants and witnesses) of the right sort
+	var consts [][2]string
+	for name, sk := range sub {
+		consts = append(consts, [2]string{sk, sorts[name]})
+	}
+	for _, ws := range wits {
+		consts = append(consts, ws...)
+	}
+	sort.Slice(consts, func(i, j int) bool { return consts[i][0] < consts[j][0] })
+	seen := map[string]bool{}
+	for _, a := range insts {
+		seen[a] = true
+	}
+	for _, a := range earlier {
+		if !strings.Contains(a, ":pattern ((sf_mark ") {
+			continue
+		}
+		aq, ok := parseQForm(a)
+		if !ok || len(aq.binders) != 1 {
+			continue
+		}
+		b := aq.binders[0]
+		if strings.Contains(aq.body, "(("+b[0]+" ") || strings.Contains(aq.body, " ("+b[0]+" ") {
+			continue
+		}
+		for _, c := range consts {
+			if c[1] != b[1] {
+				continue
+			}
+			ib := witnessExists(substTokens(aq.body, map[string]string{b[0]: c[0]}), &decls, wits, &wn)
+			line := fmt.Sprintf("(assert %s)", ib)
+			if aq.reach != "" {
+				line = fmt.Sprintf("(assert (=> %s %s))", aq.reach, ib)
+			}
+			if !seen[line] && len(insts) < 400 {
+				seen[line] = true
+				insts = append(insts, line)
+			}
+		}
+	}
+	return decls, insts, "", true
 }
